@@ -46,6 +46,7 @@ def arFun (kind : Nat) (p0 p1 p2 : Float) (r : Float) : Float :=
   | 0 => p0
   | 1 => p0 + p1 * (r / p2)
   | 2 => p0 * Float.pow (r / p2) p1
+  | 4 => if r < p2 then p0 else p0 + p1 * (r / p2 - 1.0)
   | _ => p0 + p1 / (1.0 + r / p2)
 
 /-- c15.gen shape ars → per ar: r0 r1 r2 eqRadius thermo kinetic (inner formulas, no wrapper) -/
@@ -133,6 +134,46 @@ def hist : P String := do
     let sk := match st.search with | .closedForm => "S" | .bisection => "B"
     pure s!"{sk} {bstr o.fallback} {o.iters} {fout o.r} {st.shape}"
 
+/-- description-level functions of a list of aspect ratios, flat output:
+`which` 0 eqRadiusFactor, 1 thermoFactor, 2 kineticFactor (wrapper model on the regenerated formulas),
+3 normalRadii (rows flattened) -/
+def descF (sh which : Nat) (ars : List Float) : List Float :=
+  match shapeOf sh with
+  | none => []
+  | some s =>
+    if which == 3 then (radiiArr s.radii ars).flatten
+    else match pick s which with
+      | some (fmin, f) => wrapArr fmin f ars
+      | none => []
+
+/-- `0 spec` | `1 shape spec` | `2` setters as in `op`; `3 which obj vals` evaluation of a radius
+function with the argument object `obj` (explicit identity) whose current contents are `vals` -/
+def rop : P (ROp Float Fn) := do
+  let t ← nat
+  match t with
+  | 0 => do let s ← spec; pure (.cfg (.setAspectRatio s))
+  | 1 => do let sh ← nat; let s ← spec; pure (.cfg (.setShape sh s))
+  | 2 => pure (.cfg .setSpherical)
+  | 3 => do let w ← nat; let o ← nat; let vs ← flts; pure (.eval w o vs)
+  | _ => failure
+
+/-- c15.rhist ctor(0 shape spec | 1) ops → shape-after n, then per evaluation (call order):
+answer of the model of the code as it is, answer of the identity-memo variant -/
+def rhist : P String := do
+  let c ← nat
+  let st0 : Option (St Float Fn) ← (match c with
+    | 0 => do let sh ← nat; let s ← spec; pure (some (run sh s []))
+    | 1 => pure (some (runSpherical []))
+    | _ => pure none)
+  let ops ← lst rop
+  match st0 with
+  | none => failure
+  | some st =>
+    let r := runR evalFn descF st ops
+    let m := memoRun evalFn descF (memoFresh st) ops
+    let body := (r.2.zip m.2).map (fun (a, b) => s!"{flist a} {flist b}")
+    pure (" ".intercalate (toString r.1.shape :: toString r.2.length :: body))
+
 def handle (verb : String) : Option (P String) :=
   match verb with
   | "c15.gen" => some gen
@@ -142,6 +183,7 @@ def handle (verb : String) : Option (P String) :=
   | "c15.bisect" => some bisect
   | "c15.rscalar" => some rscalar
   | "c15.hist" => some hist
+  | "c15.rhist" => some rhist
   | _ => none
 
 end KawinV.Drv.C15
